@@ -166,6 +166,17 @@ pub fn relations(args: &Args, s: &mut Summary) {
         set!("source", source, [String::new(), "src".to_string()]);
         set!("tags", tags, [String::new(), "x y z".to_string()]);
         set!("title", title, [String::new(), "Re:Zero".to_string()]);
+        // invisible but NOT whitespace at the ends, control characters inside, characters that look like syntax
+        let awkward: Vec<String> = ["\u{feff}Intro", "Outro\u{feff}", "\u{200b}x\u{200b}", "a\tb", "x\u{2028}y", "ends\\", "\"quoted\"", "\u{1F600}", "\u{2060}",
+                                    "a\u{0}b", "[Events]", "1,2,3", "x // y", "\u{e9}\u{301}"].iter().map(|x| x.to_string()).collect();
+        set!("title", title, awkward.clone());
+        set!("artist", artist, awkward.clone());
+        set!("creator", creator, awkward.clone());
+        set!("version", version, awkward.clone());
+        set!("source", source, awkward.clone());
+        set!("tags", tags, awkward.clone());
+        set!("title_unicode", title_unicode, awkward.clone());
+        set!("artist_unicode", artist_unicode, awkward.clone());
         set!("preview_time", preview_time, [0, 1, -1, 2147483647, -2147483647, 98765]);
         set!("audio_lead_in", audio_lead_in, [0.0, 1.0, 2147483647.0, -5.0]);
         set!("beat_divisor", beat_divisor, [1, 16, -3, 2147483647]);
